@@ -95,16 +95,39 @@ def wl_cbf(ctx, rng, case):
     case.nontrivial = removes >= 1
 
 
+def wl_ccf_refill(ctx, rng, case):
+    """counting cuckoo: fill the buckets (bins spill over to their alternate bucket), remove some keys down to zero (freeing slots in
+    first buckets), then add earlier keys AGAIN: the count must go up in the existing bin, wherever it sits"""
+    _ccf_run(ctx, rng, case, refill=True)
+
+
 def wl_ccf(ctx, rng, case):
+    _ccf_run(ctx, rng, case, refill=False)
+
+
+def _ccf_run(ctx, rng, case, refill):
     import probables as P
 
     cfg = ck.gen_cfg(rng, counting=True)
-    keys = ck.gen_keys(rng, cfg, rng.randint(3, 10))
+    if refill:
+        cfg.capacity = rng.choice([2, 3, 4, 5, 8])
+        cfg.bucket_size = rng.choice([1, 2, 2, 3])
+        cfg.max_swaps = rng.choice([1, 2, 4])
+    keys = ck.gen_keys(rng, cfg, rng.randint(3, 10) if not refill else rng.randint(5, 14))
     if len(keys) < 2:
         return
     # histories with repeated adds so that bins with count > 1 get kicked and re-inserted through expansions
     ops = []
-    for _ in range(rng.randint(5, 16)):
+    if refill:
+        for k in keys:
+            ops.extend([("add", k)] * rng.choice([1, 1, 2]))
+        for _ in range(rng.randint(3, 10)):
+            k = rng.choice(keys)
+            ops.extend([("remove", k)] * rng.choice([1, 2, 3]))
+            for k2 in rng.sample(keys, min(3, len(keys))):
+                ops.append(("add", k2))
+        ops = ops[:48]
+    for _ in range(rng.randint(5, 16) if not refill else 0):
         r = rng.random()
         if r < 0.62:
             k = rng.choice(keys)
@@ -115,8 +138,8 @@ def wl_ccf(ctx, rng, case):
             ops.append(("expand",))
         else:
             ops.append(("reload", rng.choice(["bytes", "path"])))
-    ops = ops[:22]
-    case.desc = dict(cfg.desc(), n_keys=len(keys))
+    ops = ops[:22] if not refill else ops
+    case.desc = dict(cfg.desc(), n_keys=len(keys), kind="fill, remove to zero, re-add" if refill else "mixed")
     for op in ops:
         case.op(*op)
     sc = bl.Scratch(ctx, case)
@@ -153,7 +176,7 @@ def wl_ccf(ctx, rng, case):
                 break
 
     try:
-        ex = rngscript.explore(run, 300 if ctx.tier == "quick" else 15000, sample_rng=_stdrandom.Random(rng.getrandbits(32)),
+        ex = rngscript.explore(run, (300 if not refill else 80) if ctx.tier == "quick" else (15000 if not refill else 3000), sample_rng=_stdrandom.Random(rng.getrandbits(32)),
                                extra_samples=30 if ctx.tier == "quick" else 300)
     finally:
         sc.cleanup()
@@ -178,6 +201,7 @@ PROP = Prop(
     workloads=[
         Workload("cbf", wl_cbf, quick=1200, thorough=80000),
         Workload("ccf", wl_ccf, quick=250, thorough=6000),
+        Workload("ccf_refill", wl_ccf_refill, quick=150, thorough=4000),
     ],
     assumptions=["below saturation; removals never exceed the key's outstanding count",
                  "history independence compares the library with itself on another history (fresh filter fed the outstanding multiset); cell semantics are pinned by C06/C16",
